@@ -15,7 +15,7 @@ from .c02_witness import VERDICTS, WITNESSES
 
 PID = "C02"
 PROPS_FILE = "props/C02.v"
-MODEL_TARGETS = ["model/Commute.vo", "model/CommuteBuild.vo"]
+MODEL_TARGETS = ["model/Commute.vo", "model/CommuteBuild.vo", "model/CommuteX.vo"]
 RULE = ("E2 both orders: states reached by the seeded e2 generator (real Workflow + Scheduler, in-memory "
         "SQLite) with at least two running commands; pairs of requests (declare_static / define_step / "
         "amend_step / CONFIRMED hash result / exec_end) of two DIFFERENT running steps over a pool of 2-4 "
@@ -64,7 +64,11 @@ ASSUMPTIONS = [
 HEADER = ("From Coq Require Import List NArith Bool.\nImport ListNotations.\n"
           "From SV Require Import lib.Bytes model.Graph model.GraphDump model.GraphInv model.Commute.\n"
           "Open Scope N_scope.\n")
-HEADER_HZ = HEADER.replace("model.Commute.", "model.Commute model.Dispatch model.CommuteBuild.")
+# the comparisons with the real Workflow use the transactions as the code has them since 84081f2
+# (model/CommuteX.v: Graph.step_op followed by GraphExt.undefer_post); the refutation witnesses are checked
+# against both_orders of model/Commute.v, which is what the lemmas state
+HEADER_X = HEADER.replace("model.Commute.", "model.Commute model.GraphExt model.CommuteX.")
+HEADER_HZ = HEADER.replace("model.Commute.", "model.Commute model.Dispatch model.CommuteBuild model.GraphExt model.CommuteX.")
 HZ_CODE = {"D22": 22, "D23": 23, "D24": 24, "det": 1}
 
 
@@ -251,7 +255,7 @@ def _rerun_term(r, name="rerun_check"):
     nbase = r["nbase"]
     base = r["model"][0][0][:nbase]
     cases = common.coq_list([f"({_cq_tr(ops[nbase:])}, {e2.cq_dump(d)})" for ops, d in r["model"]])
-    return f"{name} 3 {_cq_tr(base)} {cases}"
+    return f"{name}_e 3 {_cq_tr(base)} {cases}"
 
 
 def _rerun_wit(r, diff=None):
@@ -297,17 +301,17 @@ def correspondence(ctx):
             continue
         ops = common.coq_list([_cq_op(o) for o in st["ops"]])
         cases = common.coq_list([_cq_case(p) for p in pairs])
-        checks.append(f"orders_check 3 {ops} {cases}")
+        checks.append(f"orders_check_e 3 {ops} {cases}")
         idx.append(si)
         ctx.count("model-vs-impl pairs", len(pairs))
-    bad = common.run_cases(ctx, "orders", HEADER, checks, chunk=4)
+    bad = common.run_cases(ctx, "orders", HEADER_X, checks, chunk=4)
     ctx.traces_validated += len(checks) - len(bad)
     for b in bad[:3]:
         st = states[idx[b]]
         pairs = st["pairs"][:per_state]
         ops = common.coq_list([_cq_op(o) for o in st["ops"]])
         cases = common.coq_list([_cq_case(p) for p in pairs])
-        v = common.eval_terms(ctx, "ordersdiag", HEADER, [f"orders_bad 3 {ops} {cases}"])
+        v = common.eval_terms(ctx, "ordersdiag", HEADER_X, [f"orders_bad_e 3 {ops} {cases}"])
         flags = [x == "true" for x in (v[0] or "").replace("[", " ").replace("]", " ").replace(";", " ").split()]
         k = flags.index(False) if False in flags else 0
         p = pairs[k]
@@ -323,7 +327,7 @@ def correspondence(ctx):
         ops = common.coq_list([_cq_op(o) for o in st["ops"]])
         cases = common.coq_list([f"({_cq_op(r)}, {common.coq_list([str(HZ_CODE[h]) for h in hz])})"
                                  for p in pairs for r, hz in ((p["r1"], p["hz"][0]), (p["r2"], p["hz"][1]))])
-        hchecks.append(f"(let s := run_ops {ops} (init_st 3) in "
+        hchecks.append(f"(let s := run_ops_e {ops} (init_st 3) in "
                        f"forallb (fun c : op * list N => str_eqb (hazard_codes (fst c) s) (snd c)) {cases})")
         hidx.append(si)
         ctx.count("model-vs-impl hazard classifications", 2 * len(pairs))
@@ -342,11 +346,11 @@ def correspondence(ctx):
     rchecks = [_rerun_term(r) for r in reruns]
     for r in reruns:
         ctx.count("model-vs-impl rerun sequences", len(r["model"]))
-    badr = common.run_cases(ctx, "rerun", HEADER, rchecks, chunk=6)
+    badr = common.run_cases(ctx, "rerun", HEADER_X, rchecks, chunk=6)
     ctx.traces_validated += len(rchecks) - len(badr)
     for b in badr[:3]:
         r = reruns[b]
-        v = common.eval_terms(ctx, "rerundiag", HEADER, [_rerun_term(r, "rerun_bad")])
+        v = common.eval_terms(ctx, "rerundiag", HEADER_X, [_rerun_term(r, "rerun_bad")])
         flags = [x == "true" for x in (v[0] or "").replace("[", " ").replace("]", " ").replace(";", " ").split()]
         k = flags.index(False) if False in flags else 0
         ops, final = r["model"][k]
